@@ -37,6 +37,8 @@ func init() {
 		Assumptions: []string{"sort.Slice orders the slice consistently with a strict weak order"},
 		Run:         runC12,
 		Mutants: []Mutant{
+			{Name: "run-keeps-its-environment-in-the-linter", File: "lintcmd/lint.go", Rule: "R12.8", KeyPart: "linter).run::leaves-no-state-in-the-linter",
+				Old: "\tcfg.Env = append(os.Environ(), bconf.Envs...)\n", New: "\tl.opts.patterns = append(l.opts.patterns[:0:0], l.opts.patterns...)\n\tcfg.Env = append(os.Environ(), bconf.Envs...)\n"},
 			{Name: "merge-reads-runs-from-an-unbuffered-file", File: "lintcmd/cmd.go", Rule: "R12.7", KeyPart: "decodeGob::reader-shared-by-successive-gob-decoders-is-a-ByteReader",
 				Old: "\t\t\t\tbr := bufio.NewReader(f)\n\t\t\t\treturn decodeGob(br)\n", New: "\t\t\t\treturn decodeGob(f)\n",
 				More: []Edit{{File: "lintcmd/cmd.go", Old: "func decodeGob(br io.ByteReader) ([]run, error) {", New: "func decodeGob(br io.Reader) ([]run, error) {"},
@@ -750,6 +752,37 @@ func runC12(c *Ctx) {
 		if n == 0 {
 			c.Undecided("no gob.NewDecoder call in a loop found in lintcmd (the per-run decoding of -merge input)")
 		}
+	})
+	// R12.8: -matrix is defined as merging one independent run per build
+	// configuration. (*linter).run must therefore leave nothing behind in the
+	// linter for the next configuration: it writes no field of the linter (an
+	// environment list that is appended to and kept would carry GOOS/GOARCH of
+	// one matrix line into the next one that does not set them).
+	c.Rule("R12.8", func() {
+		c.Floor("R12.8", 1)
+		run := c.Func("lintcmd", "(*linter).run")
+		bad := ""
+		var badPos = run.Pos()
+		for _, f := range append([]*ssa.Function{run}, run.AnonFuncs...) {
+			for _, a := range FieldAccesses(f) {
+				if a.Kind != "write" && a.Kind != "content" {
+					continue
+				}
+				if st, ok := a.Instr.(*ssa.Store); ok {
+					if AddrFrom(st.Addr, func(v ssa.Value) bool {
+						fa, ok := v.(*ssa.FieldAddr)
+						if !ok {
+							return false
+						}
+						owner, _ := FieldOf(fa.X.Type(), fa.Field)
+						return strings.HasSuffix(owner, "lintcmd.linter")
+					}) {
+						bad, badPos = a.Owner+"."+a.Field, st.Pos()
+					}
+				}
+			}
+		}
+		c.Check(FuncKey(run)+"::leaves-no-state-in-the-linter", badPos, bad == "", "(*linter).run writes %s through the linter: state that survives a run makes the next build configuration of a -matrix depend on the previous one (and the result on the order of the matrix lines)", bad)
 	})
 	_ = lp
 }
